@@ -410,6 +410,8 @@ class Origins:
                 return ("fnptr", strip_generics(op["fn"]))
             if "int" in op and op.get("ty") != "bool":
                 return ("const", str(op["int"]))
+            if "static" in op:
+                return ("static", op["static"])
             if "uneval" in op:
                 return ("named", op["uneval"], op.get("ev"))
             return ("const", op.get("v"))
@@ -607,6 +609,8 @@ def show(t, depth=0):
         return f"{t[1]}"
     if k == "named":
         return f"{t[1]}"
+    if k == "static":
+        return f"static {t[1]}"
     if k == "fnptr":
         return f"fn {t[1]}"
     if k == "call":
